@@ -69,29 +69,48 @@ type watchdog struct {
 	// instrumented build only (lock acquisitions of goja code are scheduling points): the action may be suspended at its
 	// first lock acquisition, the owner goroutine runs on for a while and resumes it later
 	gid    uint64
-	armed  bool
+	armed  int // > 0: park at the armed-th synchronisation point (outside any lock) of the action
+	held   int // locks of goja code currently held by the action
 	parked bool
 }
 
 //go:norace
 func (w *watchdog) setGID(id uint64) { w.gid = id }
 
-// arm: the next release() returns as soon as the action reaches a lock acquisition (if it does), leaving it suspended there.
+// arm: the next release() returns as soon as the action reaches its n-th synchronisation point outside any lock (if it
+// does), leaving it suspended there.
 //
 //go:norace
-func (w *watchdog) arm() { w.armed = true }
+func (w *watchdog) arm(n int) { w.armed, w.held = n, 0 }
+
+//go:norace
+func (w *watchdog) disarm() { w.armed = 0 }
 
 //go:norace
 func (w *watchdog) isParked() bool { return w.parked }
 
-// atLockAcquisition is called on the watchdog's own goroutine (from the sync-point hook).
+// atSyncPoint is called on the watchdog's own goroutine (from the sync-point hook).
 //
 //go:norace
-func (w *watchdog) atLockAcquisition() {
-	if !w.armed {
+func (w *watchdog) atSyncPoint(kind int) {
+	switch kind {
+	case 1:
+		w.held++
+		return
+	case 2:
+		if w.held > 0 {
+			w.held--
+		}
 		return
 	}
-	w.armed = false
+	// never park while the action holds a lock: the owner goroutine might block on it for real
+	if kind != 0 || w.armed <= 0 || w.held > 0 {
+		return
+	}
+	w.armed--
+	if w.armed > 0 {
+		return
+	}
 	w.parked = true
 	w.ack.signal()
 	w.req.wait()
@@ -142,7 +161,7 @@ func (w *watchdog) release() {
 
 func (w *watchdog) shutdown() {
 	w.resume()
-	w.armed = false
+	w.armed = 0
 	w.setStop()
 	w.req.signal()
 	w.ack.wait()
